@@ -222,7 +222,18 @@ func runC08(c *Ctx) {
 		}
 		// comparison function: all resources, exact inequality
 		c.Check(hasRangeOverGlobal(cmp, "AllResources"), "O3", "MPT", funcKey(cmp)+": iterates rs.AllResources", cmp.Pos(), "ranges over AllResources", "the "+ck.what+" comparison does not iterate all resources")
-		paths := fx.retPaths(cmp, 0, WantTrue)
+		// the comparison may live in a per-resource predicate (a helper or a closure handed to slices.IndexFunc):
+		// the exactness and skip rules are evaluated where it lives
+		cmpFn := cmp
+		var cmpInstr ssa.Instruction
+		for _, h := range p.deepFind(cmp, func(in ssa.Instruction) bool {
+			bo, ok := in.(*ssa.BinOp)
+			return ok && bo.Op == token.LSS && termOf(bo.X).lastField() == ck.limitField
+		}, 3) {
+			cmpInstr = h.In
+			cmpFn = h.In.Parent()
+		}
+		paths := fx.retPaths(cmpFn, 0, WantTrue)
 		for i, rp := range paths {
 			d, ok := hasFact(rp.Facts, func(f Fact) bool {
 				if f.T.Op != "bin" || f.T.Name != "<" || !f.Pol {
@@ -238,32 +249,39 @@ func runC08(c *Ctx) {
 		}
 		c.Floor("O4", "RET over paths of "+ck.cmp, len(paths), 1)
 		// a resource is left uncompared only when its limit is the "unlimited" constant or nothing of it is requested
-		var cmpInstr ssa.Instruction
-		for _, in := range instrsIn(cmp, func(in ssa.Instruction) bool {
-			bo, ok := in.(*ssa.BinOp)
-			return ok && bo.Op == token.LSS && termOf(bo.X).lastField() == ck.limitField
-		}) {
-			cmpInstr = in
-		}
 		if c.Check(cmpInstr != nil, "O4", "MPT", funcKey(cmp)+": the limit comparison exists", cmp.Pos(), ck.limitField+" < "+ck.usedField+" + request", "the comparison "+ck.limitField+" < "+ck.usedField+" + request was not found") {
-			ok, path := everyIterationPasses(cmpInstr, func(x ssa.Instruction) bool { return x == cmpInstr }, func(from, to *ssa.BasicBlock) bool {
-				excused := fx.edgeEstablishes(from, to, func(f Fact) bool {
+			passes := everyIterationPasses
+			if loopHeaderOf(cmpInstr.Block()) == nil {
+				// a per-resource predicate: every path through it reaches the comparison unless excused
+				passes = func(must ssa.Instruction, pass func(ssa.Instruction) bool, edgeOK func(from, to *ssa.BasicBlock) bool) (bool, []int) {
+					_, path, found := reachAvoiding([]cfgPos{entryPos(must.Parent())}, isReturn, pass, edgeOK)
+					return !found, path
+				}
+			}
+			ok, path := passes(cmpInstr, func(x ssa.Instruction) bool { return x == cmpInstr }, func(from, to *ssa.BasicBlock) bool {
+				excusing := func(f Fact) bool {
+					// the resource is absent from the request
+					if !f.Pol && f.T.Op == "extract" && f.T.Name == "1" && f.T.Args[0].Op == "lookup" {
+						return true
+					}
 					if f.T.Op != "bin" || len(f.T.Args) != 2 {
 						return false
 					}
 					a, b := f.T.Args[0], f.T.Args[1]
+					eq := (f.Pol && f.T.Name == "==") || (!f.Pol && f.T.Name == "!=")
 					// limit == Unlimited (−1)
-					if f.Pol && f.T.Name == "==" && a.lastField() == ck.limitField && b.Op == "const" && strings.HasPrefix(b.Name, "-1") {
+					if eq && a.lastField() == ck.limitField && b.Op == "const" && strings.HasPrefix(b.Name, "-1") {
 						return true
 					}
 					// nothing requested: request == 0
-					if f.Pol && f.T.Name == "==" && b.String() == "const:0" && a.Op == "extract" && a.Args[0].Op == "lookup" {
+					if eq && b.String() == "const:0" && a.Op == "extract" && a.Args[0].Op == "lookup" {
 						return true
 					}
 					return false
-				}) || fx.edgeEstablishes(from, to, func(f Fact) bool {
-					// the resource is absent from the request
-					return !f.Pol && f.T.Op == "extract" && f.T.Name == "1" && f.T.Args[0].Op == "lookup"
+				}
+				excused := fx.edgeEstablishes(from, to, excusing) || fx.edgeEstablishesAll(from, to, func(s FactSet) bool {
+					_, ok := hasFact(s, excusing)
+					return ok
 				})
 				return !excused
 			})
@@ -318,7 +336,12 @@ func runC08(c *Ctx) {
 				c.Check(bodies[0].Walk.Header.Dominates(e.Block), "O5", "MPT", funcKey(h)+": "+e.Target+" updated inside the ancestor walk", e.Pos, "inside the walk", "a queue counter is updated outside the ancestor walk")
 			}
 		}
-		c.Check(hasRangeOverGlobal(body, "AllResources"), "O5", "MPT", funcKey(h)+": iterates rs.AllResources", h.Pos(), "all resources", "the handler does not update all resources")
+		allRes := hasRangeOverGlobal(body, "AllResources")
+		if !allRes && len(bodies) == 1 && bodies[0].Call != nil {
+			// the walking helper iterates the resources and calls back once per (queue, resource)
+			allRes = hasRangeOverGlobal(bodies[0].Call.Parent(), "AllResources") && loopHeaderOf(bodies[0].Call.Block()) != nil
+		}
+		c.Check(allRes, "O5", "MPT", funcKey(h)+": iterates rs.AllResources", h.Pos(), "all resources", "the handler does not update all resources")
 	}
 
 	// ---- O6: units — queue memory quota/limit are scaled by the API's unit (10^6 bytes)
